@@ -19,9 +19,10 @@ ASSUMPTIONS = [
     "theorems about geometry, interpolation and fields are about the real-number reading of the model; rounding error "
     "between the float and real readings is not bounded (only the shared-edge gap-freeness of the index-ordered edge "
     "test is proved on binary64 itself, from Coq's FloatAxioms)",
-    "point values are modelled for electrostatics (getPointValues with smoothing off, planar / no external region so that "
-    "AECF = 1); for heat flow and magnetics the model covers location (InTriangle, their InTriangleTest variants, ctr, "
-    "rsqr) and the potential interpolant, their fields are checked by the run-time oracle only",
+    "point values are modelled with smoothing off and AECF = 1 (planar problems, or axisymmetric without external region): "
+    "electrostatics completely (V, D, E, e, nrg); heat flow for constant-conductivity materials (T, F, G, K); magnetics for "
+    "planar static problems A and B only (mu, H and energy go through CMMaterialProp and are checked by the run-time oracle only); "
+    "smoothing ON (getNodalD / nodal averaging) is not modelled",
     "solution-file parsing is not modelled: the model starts from the node/element/label/material tables the "
     "post-processor holds after OpenDocument (dumped by the harness); eo and LengthConv are taken from the implementation",
     "the model is hand-written; its tie to PostProcessor.cpp/epproc.cpp/hpproc.cpp/fpproc.cpp is the correspondence run here",
@@ -241,7 +242,78 @@ def run_harness(ctx, kind, sol, cmds):
 
 
 # ---------------------------------------------------------------------- model side ----
+# Anchors: the statements of the C++ the model transcribes (whitespace-insensitive).  A missing
+# anchor means the source text moved away from the model: reported as a broken tie.
+ANCHORS = {
+    "libfemm/PostProcessor.cpp": [
+        "static int k=0;", "if ((k < 0) || (k >= sz)) k = 0;", "if (InTriangleTest(x,y,k)) return k;",
+        "for(j=0; j<sz; j+=2)", "if (hi >= sz) hi = 0;", "if (lo < 0) lo = sz - 1;",
+        "z = (hiCtr.re - x) * (hiCtr.re - x) + (hiCtr.im - y) * (hiCtr.im - y);", "if (z <= meshelems[hi]->rsqr)",
+        "z = (loCtr.re-x)*(loCtr.re-x) + (loCtr.im-y)*(loCtr.im-y);", "if (z <= meshelems[lo]->rsqr)",
+        "if ((i < 0) || (i >= int(meshelems.size()))) return false;", "if (p_k > p_j)", "if(z<0) return false;",
+        "if (z > 0) return false;", "CComplex p(meshnodes[ p_j ]->x/3., meshnodes[ p_j ]->y/3.);",
+        "if(!Smooth){ D=elm.D; return; }"],
+    "epproc/epproc.cpp": [
+        "elm.blk = labellist[elm.lbl]->BlockType;", "e->ctr=Ctr(i);", "e->rsqr=0;", "if(b>e->rsqr) e->rsqr=b;",
+        "E-=node->V*(b[i]+I*c[i])/(da*LengthConv[problem->LengthUnits]);",
+        "elem->D = eo*(E.re*mat->ex + I*E.im*mat->ey)/AECF(elem);", "double da=(b[0]*c[1]-b[1]*c[0]);",
+        "u.e=prop->ex + I*prop->ey;", "u.V+=getMeshNode(n[i])->V*(a[i]+b[i]*x+c[i]*y)/(da);",
+        "u.E.re = u.D.re/(u.e.re*eo);", "u.E.im = u.D.im/(u.e.im*eo);", "u.nrg=Re(u.D*conj(u.E))/2.;"],
+    "hpproc/hpproc.cpp": [
+        "e->ctr=Ctr(i);", "if(b>e->rsqr) e->rsqr=b;", "E-=node->T*(b[i]+I*c[i])/(da*LengthConv[problem->LengthUnits]);",
+        "kn+=bprop->GetK(node->T)/3.;", "elem->D=(E.re*kn.re + I*E.im*kn.im)/AECF(elem);",
+        "u.T+=getMeshNode(n[i])->T*(a[i]+b[i]*x+c[i]*y)/(da);", "u.G.re = u.F.re/(u.K.re);", "u.G.im = u.F.im/(u.K.im);"],
+    "fpproc/fpproc.cpp": [
+        "static int k;", "for(j=0; j<sz; j+=2)", "if (hi >= sz) hi = 0;", "if (lo < 0) lo = sz - 1;",
+        "if (z <= meshelem[hi].rsqr)", "if (z <= meshelem[lo].rsqr)", "if ((i < 0) || (i >= int(meshelem.size()))) return false;",
+        "if (meshelem[i].p[k] > meshelem[i].p[j])", "if(b>meshelem[i].rsqr) meshelem[i].rsqr=b;",
+        "elm.B1 += meshnode[n[i]].A * c[i] / (da * LengthConv[LengthUnits]);",
+        "elm.B2 -= meshnode[n[i]].A * b[i] / (da * LengthConv[LengthUnits]);",
+        "u.A.re += meshnode[n[i]].A.re * (a[i] + b[i] * x + c[i] * y) / (da);"],
+}
+HP_VARIANT = {"v": "hp"}
+
+
+def squash(t):
+    return "".join(t.split())
+
+
+def regen(ctx):
+    """No generated Coq text; checks the anchors and finds out which InTriangleTest HPProc has."""
+    import re
+    missing = []
+    for f, al in ANCHORS.items():
+        try:
+            txt = squash(open(os.path.join(ctx.snap.src, f), errors="replace").read())
+        except OSError:
+            raise vlib.TranslateError("C12: source file %s is missing" % f)
+        for a in al:
+            if squash(a) not in txt:
+                missing.append("%s: %s" % (f, a))
+    hp = open(os.path.join(ctx.snap.src, "hpproc/hpproc.cpp"), errors="replace").read()
+    m = re.search(r"bool\s+HPProc::InTriangleTest\s*\([^)]*\)\s*const\s*\{(.*?)\n\}", hp, re.S)
+    if not m:
+        # no override any more: the base-class (index-ordered) test is used
+        HP_VARIANT["v"] = "ord"
+    else:
+        body = squash(m.group(1))
+        if "PostProcessor::InTriangleTest(x,y,i)" in body:
+            HP_VARIANT["v"] = "ord"
+        elif squash("if(z<0) InFlag=false;") in body and squash("z=(meshnodes[meshelems[i]->p[k]]->x-meshnodes[meshelems[i]->p[j]]->x)*") in body \
+                and "p[k]>" not in body and "p_k>" not in body:
+            HP_VARIANT["v"] = "hp"
+        else:
+            missing.append("hpproc/hpproc.cpp: HPProc::InTriangleTest is neither the unordered loop nor a delegation to the base class")
+    TESTFN["h"] = "test_hp FA" if HP_VARIANT["v"] == "hp" else "test_ord FA"
+    ctx.res.notes.append("HPProc::InTriangleTest variant in this tree: %s" % HP_VARIANT["v"])
+    if missing:
+        raise vlib.TranslateError("C12: source statements the model transcribes are no longer present: " + "; ".join(missing[:6]))
+
+
 TESTFN = {"e": "test_ord FA", "h": "test_hp FA", "m": "test_ord FA"}
+LOADFN = {"e": "load FA", "h": "load_h FA", "m": "load_m FA"}
+QUERYFN = {"e": "queries FA", "h": "queries_h FA", "m": "queries_m FA"}
+NCMP = {"e": 8, "h": 7, "m": 3}     # how many of the printed point values the model covers
 
 
 def coq_mesh_def(name, M):
@@ -250,7 +322,7 @@ def coq_mesh_def(name, M):
     rel = "; ".join("mkRelem %d %d %d %d" % (e[0], e[1], e[2], e[3]) for e in M["elems"])
     labs = "; ".join("mkLabel %s %s %d" % (f(l[0]), f(l[1]), l[2]) for l in M["labels"])
     mats = "; ".join("mkMat %s %s" % (f(a), f(b)) for (a, b) in M["mats"])
-    return "Definition %s := load FA [%s] [%s] [%s] [%s] %s %s.\n" % (name, nodes, rel, labs, mats, f(M["lc"]), f(M["eo"]))
+    return "Definition %s := %s [%s] [%s] [%s] [%s] %s %s.\n" % (name, LOADFN[M["kind"]], nodes, rel, labs, mats, f(M["lc"]), f(M["eo"]))
 
 
 def coq_points(pts):
@@ -262,7 +334,578 @@ def model_exprs(name, M, queries, tests):
     k0 = "(label_queries FA (%s) %s 0%%Z (labels %s))" % (t, name, name)
     ex = ["map dump_elem (elems %s)" % name,
           k0,
-          "map (flat_result FA) (queries FA (%s) %s %s %s)" % (t, name, k0, coq_points(queries))]
+          "map (flat_result FA) (%s (%s) %s %s %s)" % (QUERYFN[M["kind"]], t, name, k0, coq_points(queries))]
     if tests:
-        ex.append("[%s]" % "; ".join("%s %s %s %s %d%%Z" % (t, name, vlib.fhex(x), vlib.fhex(y), i) for (x, y, i) in tests))
+        ex.append("[%s]" % "; ".join("%s %s %s %s (%d)%%Z" % (t, name, vlib.fhex(x), vlib.fhex(y), i) for (x, y, i) in tests))
     return ex
+
+
+# ------------------------------------------------------------------------ queries ----
+def mesh_edges(M):
+    ed = {}
+    for ei, e in enumerate(M["elems"]):
+        for a, b in ((e[0], e[1]), (e[1], e[2]), (e[2], e[0])):
+            ed.setdefault((min(a, b), max(a, b)), []).append(ei)
+    return ed
+
+
+def gen_queries(rng, M, budget, edge_heavy=False):
+    """Seeded query points of every category; returns a shuffled list of dicts
+    {x, y, cat, ...}; a fraction of the points occurs twice (history independence)."""
+    N, E = M["nodes"], M["elems"]
+    ed = mesh_edges(M)
+    inner = [k for k, v in ed.items() if len(v) == 2]
+    outer = [k for k, v in ed.items() if len(v) == 1]
+    xs = [n[0] for n in N]
+    ys = [n[1] for n in N]
+    x0, x1, y0, y1 = min(xs), max(xs), min(ys), max(ys)
+    diag = math.hypot(x1 - x0, y1 - y0)
+    Q = []
+    w = dict(interior=0.2, centroid=0.06, vertex=0.12, edge=0.22, near_vertex=0.1, near_boundary=0.14, bbox=0.1, far=0.06)
+    if edge_heavy:
+        w = dict(interior=0.03, centroid=0.01, vertex=0.03, edge=0.85, near_vertex=0.03, near_boundary=0.03, bbox=0.01, far=0.01)
+    for cat, frac in w.items():
+        for _ in range(max(2, int(budget * frac))):
+            if cat == "interior":
+                ei = rng.randrange(len(E))
+                l = [rng.random() + 1e-3 for _ in range(3)]
+                s = sum(l)
+                l = [v / s for v in l]
+                p = [N[E[ei][j]] for j in range(3)]
+                Q.append(dict(x=l[0] * p[0][0] + l[1] * p[1][0] + l[2] * p[2][0],
+                              y=l[0] * p[0][1] + l[1] * p[1][1] + l[2] * p[2][1], cat=cat, elem=ei))
+            elif cat == "centroid":
+                ei = rng.randrange(len(E))
+                p = [N[E[ei][j]] for j in range(3)]
+                Q.append(dict(x=(p[0][0] + p[1][0] + p[2][0]) / 3, y=(p[0][1] + p[1][1] + p[2][1]) / 3, cat=cat, elem=ei))
+            elif cat == "vertex":
+                ni = rng.randrange(len(N))
+                Q.append(dict(x=N[ni][0], y=N[ni][1], cat=cat, node=ni))
+            elif cat == "edge":
+                a, b = rng.choice(inner if (inner and rng.random() < 0.8) else outer)
+                if rng.random() < 0.5:
+                    a, b = b, a
+                t = rng.choice([0.5, 0.25, rng.random(), rng.random(), rng.random() * 1e-3, 1 - rng.random() * 1e-3])
+                Q.append(dict(x=N[a][0] + t * (N[b][0] - N[a][0]), y=N[a][1] + t * (N[b][1] - N[a][1]), cat=cat, a=a, b=b, t=t))
+            elif cat == "near_vertex":
+                ni = rng.randrange(len(N))
+                dx, dy = rng.choice([(1, 0), (-1, 0), (0, 1), (0, -1), (1, 1), (1, -1), (-1, 1), (-1, -1)])
+                k = rng.choice([1, 1, 2, 5, 1000])
+                x, y = N[ni][0], N[ni][1]
+                for _ in range(k if k < 10 else 1):
+                    if dx:
+                        x = math.nextafter(x, math.inf * dx)
+                    if dy:
+                        y = math.nextafter(y, math.inf * dy)
+                if k >= 10:
+                    x, y = N[ni][0] + dx * k * math.ulp(N[ni][0]), N[ni][1] + dy * k * math.ulp(N[ni][1])
+                Q.append(dict(x=x, y=y, cat=cat, node=ni))
+            elif cat == "near_boundary":
+                a, b = rng.choice(outer)
+                t = rng.random()
+                ex, ey = N[b][0] - N[a][0], N[b][1] - N[a][1]
+                ln = math.hypot(ex, ey)
+                eps = rng.choice([1e-2, 1e-5, 1e-9, 1e-12]) * ln * rng.choice([-1, 1])
+                Q.append(dict(x=N[a][0] + t * ex - eps * ey / ln, y=N[a][1] + t * ey + eps * ex / ln, cat=cat, a=a, b=b))
+            elif cat == "bbox":
+                Q.append(dict(x=rng.uniform(x0, x1), y=rng.uniform(y0, y1), cat=cat))
+            else:
+                th = rng.uniform(0, 2 * math.pi)
+                r = diag * rng.choice([0.8, 2, 50, 1e6])
+                Q.append(dict(x=(x0 + x1) / 2 + r * math.cos(th), y=(y0 + y1) / 2 + r * math.sin(th), cat=cat))
+    # repeats: the same point after a different history
+    rep = [dict(q, repeat=True) for q in Q if rng.random() < 0.25]
+    Q += rep
+    rng.shuffle(Q)
+    return Q[:max(budget, 8)] if len(Q) > budget * 1.4 else Q
+
+
+# ------------------------------------------------------------------ property oracle ----
+TAG_HP = "C12-1:HPProc-InTriangleTest-unordered-edge-gap"
+
+
+def exact_orients(M, ei, x, y):
+    """Exact (rational) values of the three edge functions of element ei at the float point."""
+    N = M["nodes"]
+    e = M["elems"][ei]
+    X, Y = Fraction(x), Fraction(y)
+    out = []
+    for a, b in ((e[0], e[1]), (e[1], e[2]), (e[2], e[0])):
+        xa, ya, xb, yb = Fraction(N[a][0]), Fraction(N[a][1]), Fraction(N[b][0]), Fraction(N[b][1])
+        out.append((xb - xa) * (Y - ya) - (yb - ya) * (X - xa))
+    return out
+
+
+def classify(M, Q):
+    """For every query: exact list of elements whose closed triangle contains it, and the
+    float 'depth' max_e min_i lambda_i (how far inside/outside the meshed region)."""
+    import numpy as np
+    N = np.array([(n[0], n[1]) for n in M["nodes"]], dtype=float)
+    T = np.array([e[:3] for e in M["elems"]], dtype=int)
+    P0, P1, P2 = N[T[:, 0]], N[T[:, 1]], N[T[:, 2]]
+    da = (P1[:, 0] - P0[:, 0]) * (P2[:, 1] - P0[:, 1]) - (P2[:, 0] - P0[:, 0]) * (P1[:, 1] - P0[:, 1])
+    res = []
+    chunk = max(1, 2000000 // max(1, len(T)))
+    pts = np.array([(q["x"], q["y"]) for q in Q], dtype=float)
+    for s in range(0, len(Q), chunk):
+        X = pts[s:s + chunk, 0][:, None]
+        Y = pts[s:s + chunk, 1][:, None]
+        def o(A, B):
+            return (B[None, :, 0] - A[None, :, 0]) * (Y - A[None, :, 1]) - (B[None, :, 1] - A[None, :, 1]) * (X - A[None, :, 0])
+        with np.errstate(all="ignore"):
+            lam = np.minimum(np.minimum(o(P0, P1), o(P1, P2)), o(P2, P0)) / da[None, :]
+        for r in range(lam.shape[0]):
+            row = lam[r]
+            depth = float(np.max(row)) if np.all(np.isfinite(row)) else float("-inf")
+            cand = np.nonzero(row > -1e-9)[0]
+            q = Q[s + r]
+            inside = []
+            for ei in cand:
+                if all(v >= 0 for v in exact_orients(M, int(ei), q["x"], q["y"])):
+                    inside.append(int(ei))
+            res.append((inside, depth))
+    return res
+
+
+def near_edges(M, x, y, ed=None):
+    """(within rounding distance of an edge shared by two elements, ... of an outer-boundary edge)"""
+    N = M["nodes"]
+    ed = ed or mesh_edges(M)
+    ni = no = False
+    for (a, b), els in ed.items():
+        ax, ay, bx, by = N[a][0], N[a][1], N[b][0], N[b][1]
+        ex, ey = bx - ax, by - ay
+        l2 = ex * ex + ey * ey
+        t = max(0.0, min(1.0, ((x - ax) * ex + (y - ay) * ey) / l2))
+        d = math.hypot(x - (ax + t * ex), y - (ay + t * ey))
+        scale = max(abs(ax), abs(ay), abs(bx), abs(by), math.sqrt(l2))
+        if d <= 1e-12 * scale:
+            if len(els) == 2:
+                ni = True
+            else:
+                no = True
+    return ni, no
+
+
+def exact_interp(M, ei, x, y):
+    N = M["nodes"]
+    e = M["elems"][ei]
+    o = exact_orients(M, ei, x, y)          # o[0]: edge p0p1 -> weight of p2, o[1]: p1p2 -> p0, o[2]: p2p0 -> p1
+    da = sum(o)
+    return (o[1] * Fraction(N[e[0]][2]) + o[2] * Fraction(N[e[1]][2]) + o[0] * Fraction(N[e[2]][2])) / da
+
+
+def np_gradient(M, ei):
+    """Gradient of the linear interpolant of element ei, by an independent 3x3 solve."""
+    import numpy as np
+    N = M["nodes"]
+    e = M["elems"][ei]
+    A = np.array([[1.0, N[e[j]][0], N[e[j]][1]] for j in range(3)])
+    # centre the coordinates: better conditioned, same gradient
+    A[:, 1] -= A[:, 1].mean()
+    A[:, 2] -= A[:, 2].mean()
+    c = np.linalg.solve(A, np.array([N[e[j]][2] for j in range(3)]))
+    return float(c[1]), float(c[2])
+
+
+def rel_close(a, b, rel, floor=0.0):
+    return abs(a - b) <= rel * max(abs(a), abs(b)) + floor
+
+
+def oracle(ctx, prob, M, Q, R, stats):
+    """Property-level checks on the implementation's own outputs.  Returns list of
+    (message, index of failing query, tag)."""
+    kind = M["kind"]
+    fails = []
+    N, E = M["nodes"], M["elems"]
+    # hypotheses of the theorems, on the data the implementation actually holds
+    for ei, e in enumerate(E):
+        p = [N[e[j]] for j in range(3)]
+        da = (Fraction(p[1][0]) - Fraction(p[0][0])) * (Fraction(p[2][1]) - Fraction(p[0][1])) - \
+             (Fraction(p[2][0]) - Fraction(p[0][0])) * (Fraction(p[1][1]) - Fraction(p[0][1]))
+        if da <= 0:
+            fails.append(("mesh element %d of the solution is not counter-clockwise (theorem hypothesis mesh_ccw)" % ei, None, None))
+            return fails
+    cls = classify(M, Q)
+    ed = mesh_edges(M)
+    vscale = max(abs(n[2]) for n in N) or 1.0
+    seen = {}
+    lc = M["lc"]
+    for qi, (q, r, (inside, depth)) in enumerate(zip(Q, R, cls)):
+        x, y = q["x"], q["y"]
+        found = r[0] >= 0
+        stats["cats"][q["cat"]] = stats["cats"].get(q["cat"], 0) + 1
+        if inside:
+            stats["inside"] += 1
+            if not found:
+                # exactly in the closed region but within rounding of the OUTER boundary: no verdict
+                ni, no = near_edges(M, x, y, ed)
+                if no:
+                    stats["inside"] -= 1
+                    stats["borderline"] += 1
+                    seen.setdefault((x, y), r)
+                    continue
+                tag = TAG_HP if (kind == "h" and ni and HP_VARIANT["v"] == "hp") else None
+                fails.append(("%s: a point of the meshed region (exactly inside/on element %s) is not located"
+                              % ({"e": "epproc", "h": "hpproc", "m": "fpproc"}[kind], inside[:3]), qi, tag))
+                continue
+        elif depth < -1e-7:
+            stats["outside"] += 1
+            if found:
+                fails.append(("a point outside the meshed region (barycentric depth %.3g) is reported in element %d" % (depth, r[0]), qi, None))
+                continue
+        else:
+            stats["borderline"] += 1
+        key = (x, y)
+        if key in seen and (seen[key][0] >= 0) != found:
+            fails.append(("found/not-found of the same point depends on the query history (earlier result %d, now %d)"
+                          % (seen[key][0], r[0]), qi,
+                          TAG_HP if (kind == "h" and HP_VARIANT["v"] == "hp" and near_edges(M, x, y, ed)[0]) else None))
+        if not found:
+            seen.setdefault(key, r)
+            continue
+        ei = r[0]
+        if ei >= len(E):
+            fails.append(("returned element index %d out of range" % ei, qi, None))
+            continue
+        o = exact_orients(M, ei, x, y)
+        das = sum(o)
+        lam_min = float(min(o) / das)
+        if lam_min < -1e-9:
+            fails.append(("returned element %d does not contain the point (barycentric %.3g)" % (ei, lam_min), qi, None))
+            continue
+        V = r[1]
+        Vx = float(exact_interp(M, ei, x, y))
+        e = E[ei]
+        p = [N[e[j]] for j in range(3)]
+        # forward-error scale of sum V_i (a_i + b_i x + c_i y)/da as the code evaluates it
+        mag = 0.0
+        for j in range(3):
+            n1, n2 = p[(j + 1) % 3], p[(j + 2) % 3]
+            mag += abs(p[j][2]) * (abs(n1[0] * n2[1]) + abs(n2[0] * n1[1]) + abs((n1[1] - n2[1]) * x) + abs((n2[0] - n1[0]) * y))
+        tol = 64 * 2.3e-16 * mag / abs(float(das)) + 1e-13 * vscale
+        if not abs(V - Vx) <= tol:
+            fails.append(("potential %r differs from the linear interpolant %r of the corner values of element %d (tol %.3g)"
+                          % (V, Vx, ei, tol), qi, None))
+            continue
+        if q["cat"] == "vertex" and not abs(V - N[q["node"]][2]) <= tol:
+            fails.append(("potential at mesh node %d is %r, nodal value %r" % (q["node"], V, N[q["node"]][2]), qi, None))
+            continue
+        if q["cat"] == "edge":
+            blend = (1 - q["t"]) * N[q["a"]][2] + q["t"] * N[q["b"]][2]
+            gx, gy = np_gradient(M, ei)
+            slack = (abs(gx) * math.ulp(x) + abs(gy) * math.ulp(y)) * 4
+            if not abs(V - blend) <= tol + slack + 1e-12 * vscale:
+                fails.append(("value on the edge (%d,%d) at t=%r is %r, blend of the two nodal values %r"
+                              % (q["a"], q["b"], q["t"], V, blend), qi, None))
+                continue
+        if key in seen and seen[key][0] >= 0:
+            V0 = seen[key][1]
+            if not abs(V - V0) <= 2 * tol + 1e-12 * vscale:
+                fails.append(("the same point gives potential %r after one history and %r after another (elements %d, %d)"
+                              % (V0, V, seen[key][0], ei), qi, None))
+                continue
+        seen.setdefault(key, r)
+        # field = gradient of the interpolant scaled by the element's material
+        gx, gy = np_gradient(M, ei)
+        gs = math.hypot(gx, gy) / lc + 1e-300
+        region_blk = None
+        cxy = ((p[0][0] + p[1][0] + p[2][0]) / 3, (p[0][1] + p[1][1] + p[2][1]) / 3)
+        for poly, b in prob["regions"]:
+            if pip(cxy, poly):
+                region_blk = b
+        if region_blk is None:
+            fails.append(("centroid of returned element %d is in no region of the generated geometry" % ei, qi, None))
+            continue
+        mx, my = prob["mats"][region_blk]
+        if kind == "e":
+            Dx, Dy, Ex, Ey, epx, epy, nrg = r[2:9]
+            if (epx, epy) != (mx, my):
+                fails.append(("material data (%r,%r) are not those of the block containing the point (%r,%r)" % (epx, epy, mx, my), qi, None))
+                continue
+            if not (abs(Ex + gx / lc) <= 1e-9 * gs and abs(Ey + gy / lc) <= 1e-9 * gs):
+                fails.append(("E=(%r,%r) is not minus the gradient of the interpolant (%r,%r)" % (Ex, Ey, -gx / lc, -gy / lc), qi, None))
+                continue
+            if not (rel_close(Dx, M["eo"] * mx * Ex, 1e-12, 1e-30) and rel_close(Dy, M["eo"] * my * Ey, 1e-12, 1e-30)):
+                fails.append(("D=(%r,%r) is not eo*eps*E with the element's material" % (Dx, Dy), qi, None))
+                continue
+            if not rel_close(nrg, (Dx * Ex + Dy * Ey) / 2, 1e-12, 1e-300):
+                fails.append(("nrg=%r is not D.E/2" % nrg, qi, None))
+                continue
+        elif kind == "h":
+            Fx, Fy, Gx, Gy, Kx, Ky = r[2:8]
+            if (Kx, Ky) != (mx, my):
+                fails.append(("conductivity (%r,%r) is not that of the block containing the point (%r,%r)" % (Kx, Ky, mx, my), qi, None))
+                continue
+            if not (abs(Gx + gx / lc) <= 1e-9 * gs and abs(Gy + gy / lc) <= 1e-9 * gs):
+                fails.append(("G=(%r,%r) is not minus the gradient of the interpolant (%r,%r)" % (Gx, Gy, -gx / lc, -gy / lc), qi, None))
+                continue
+            if not (rel_close(Fx, mx * Gx, 1e-11, 1e-30 * gs) and rel_close(Fy, my * Gy, 1e-11, 1e-30 * gs)):
+                fails.append(("F=(%r,%r) is not k*G with the element's material" % (Fx, Fy), qi, None))
+                continue
+        else:
+            B1, B2, H1, H2, mu1, mu2 = r[2:8]
+            if not (rel_close(mu1, mx, 1e-12) and rel_close(mu2, my, 1e-12)):      # GetMu recomputes B/(H muo)
+                fails.append(("permeability (%r,%r) is not that of the block containing the point (%r,%r)" % (mu1, mu2, mx, my), qi, None))
+                continue
+            if not (abs(B1 - gy / lc) <= 1e-9 * gs and abs(B2 + gx / lc) <= 1e-9 * gs):
+                fails.append(("B=(%r,%r) is not the curl of the interpolant (%r,%r)" % (B1, B2, gy / lc, -gx / lc), qi, None))
+                continue
+            muo = M["eo"]       # the harness prints muo in that slot for magnetics
+            if not (rel_close(H1, B1 / (mx * muo), 1e-11, 1e-30 * gs) and rel_close(H2, B2 / (my * muo), 1e-11, 1e-30 * gs)):
+                fails.append(("H=(%r,%r) is not B/(mu*muo) with the element's material" % (H1, H2), qi, None))
+                continue
+        stats["field_checked"] += 1
+    return fails
+
+
+def report(ctx, prob, name, sol_kind, Q, fails, rerun):
+    """Turn oracle failures into ctx.fail entries with a replayable (shrunk) query sequence."""
+    done = set()
+    for msg, qi, tag in fails[:6]:
+        if (msg[:40], tag) in done:
+            continue
+        done.add((msg[:40], tag))
+        seq = Q[:qi + 1] if qi is not None else []
+        if qi is not None:
+            # does the single query fail on a freshly loaded file as well?
+            one = [Q[qi]]
+            f1 = rerun(one)
+            if any(m[:40] == msg[:40] for m, _, _ in f1):
+                seq = one
+        ctx.fail(msg + " [problem %s]" % name, finding=tag or "", problem=prob, kind=sol_kind,
+                 queries=[(float(q["x"]).hex(), float(q["y"]).hex(), q["cat"]) for q in seq[-200:]],
+                 failing_query=(float(Q[qi]["x"]).hex(), float(Q[qi]["y"]).hex()) if qi is not None else None)
+
+
+# --------------------------------------------------------------------- correspondence ----
+def problem_plan(ctx, rng):
+    """(name, kind, shape, mesh size, ugly, units, axi, centred, for_coq, query budget, edge_heavy)"""
+    P = []
+    q = ctx.quick()
+    nq = 220 if q else 400
+    P.append(("e_rect2", "e", "rect2", 0.55, False, "centimeters", False, False, True, nq, False))
+    P.append(("e_quad", "e", "quad_diag", 0.30, True, "inches", False, False, True, nq, False))
+    P.append(("e_lshape", "e", "lshape", 0.30, True, "millimeters", False, True, True, nq, False))
+    P.append(("e_ushape", "e", "ushape3", 0.33, True, "meters", False, False, True, nq, False))
+    P.append(("e_axi", "e", "rect2", 0.45, False, "mils", True, False, True, nq, False))
+    P.append(("h_quad", "h", "quad_diag", 0.30, True, "centimeters", False, False, True, nq, False))
+    P.append(("h_lshape", "h", "lshape", 0.40, False, "meters", False, False, True, nq, False))
+    P.append(("m_rect2", "m", "rect2", 0.40, True, "millimeters", False, True, True, nq, False))
+    P.append(("m_ushape", "m", "ushape3", 0.40, False, "inches", False, False, True, nq, False))
+    big = 2500 if q else 12000
+    P.append(("e_fine", "e", "ushape3", 0.07, True, "centimeters", False, False, False, big, False))
+    P.append(("h_fine", "h", "lshape", 0.06, True, "millimeters", False, False, False, big, False))
+    P.append(("m_fine", "m", "quad_diag", 0.06, True, "meters", False, False, False, big, False))
+    # coarse meshes around the origin, many points on shared edges (rounding matters most there)
+    eh = 6000 if q else 40000
+    P.append(("e_coarse0", "e", "rect2", 0.9, True, "centimeters", False, True, False, eh, True))
+    P.append(("h_coarse0", "h", "rect2", 0.9, True, "centimeters", False, True, False, eh, True))
+    P.append(("m_coarse0", "m", "rect2", 0.9, True, "centimeters", False, True, False, eh, True))
+    if not q:
+        for k in range(12):
+            kind = "ehm"[k % 3]
+            shape = rng.choice(list(shapes().keys()))
+            P.append(("r%d_%s" % (k, kind), kind, shape, rng.choice([0.2, 0.3, 0.5]), True,
+                      rng.choice(list(UNITS.keys())), False, rng.random() < 0.5, k < 6, 400 if k < 6 else 6000, rng.random() < 0.3))
+    return P
+
+
+def build_problem(rng, spec):
+    name, kind, shape, msize, ugly, units, axi, centred, for_coq, budget, eh = spec
+    p = make_problem(rng, kind, shape, msize, ugly, units, axi)
+    if centred and ugly:
+        # move the geometry so that the origin lies inside it (finest float grid inside the mesh)
+        cx = sum(x for x, _ in p["pts"]) / len(p["pts"])
+        cy = sum(y for _, y in p["pts"]) / len(p["pts"])
+        lab = p["labels"][0][0]
+        sh = (lab[0] * 0.5 + cx * 0.5, lab[1] * 0.5 + cy * 0.5)
+        mv = lambda q: (q[0] - sh[0], q[1] - sh[1])
+        p["pts"] = [mv(q) for q in p["pts"]]
+        p["regions"] = [([mv(q) for q in poly], b) for poly, b in p["regions"]]
+        p["labels"] = [(mv(q), b) for q, b in p["labels"]]
+    return p
+
+
+def compare_model(M, Q, R, tests, Rt, out):
+    """Model outputs vs implementation.  Returns (list of messages, bit-identical, compared)."""
+    dis = []
+    nb = tot = 0
+    elems, k0, res = out[0], out[1], out[2]
+    kind = M["kind"]
+    # load-time data: blk, ctr, rsqr (and D for electrostatics)
+    for ei, (a, b) in enumerate(zip(M["elems"], elems)):
+        if tuple(a[:5]) != tuple(b[:5]):
+            dis.append("element %d: implementation (p,lbl,blk)=%r, model %r" % (ei, a[:5], b[:5]))
+            continue
+        for j in range(5, 10):
+            tot += 1
+            if vlib.ulp_diff(a[j], b[j]) == 0:
+                nb += 1
+            elif not vlib.close(a[j], b[j], 64, 1e-300):
+                dis.append("element %d field %s: implementation %r, model %r" % (ei, ["cx", "cy", "rsqr", "Dx", "Dy"][j - 5], a[j], b[j]))
+    if len(res) != len(R):
+        dis.append("model answered %d queries, implementation %d" % (len(res), len(R)))
+        return dis, nb, tot
+    for qi, (r, m) in enumerate(zip(R, res)):
+        tot += 1
+        if r[0] != m[0]:
+            dis.append("query %d (%s,%s): implementation found element %d, model %d (model state after the label loop: %r)"
+                       % (qi, float(Q[qi]["x"]).hex(), float(Q[qi]["y"]).hex(), r[0], m[0], k0))
+            break
+        nb += 1
+        if r[0] < 0:
+            continue
+        vals = m[1]
+        ncmp = NCMP[kind]
+        for j in range(ncmp):
+            tot += 1
+            if vlib.ulp_diff(r[1 + j], vals[j]) == 0:
+                nb += 1
+            elif not vlib.close(r[1 + j], vals[j], 64, 1e-300):
+                dis.append("query %d (%s,%s) value %d: implementation %r, model %r"
+                           % (qi, float(Q[qi]["x"]).hex(), float(Q[qi]["y"]).hex(), j, r[1 + j], vals[j]))
+    if tests:
+        for (t, a, b) in zip(tests, Rt, out[3]):
+            tot += 1
+            if bool(a) == bool(b):
+                nb += 1
+            else:
+                dis.append("InTriangleTest(%s,%s,%d): implementation %r, model %r" % (float(t[0]).hex(), float(t[1]).hex(), t[2], a, b))
+    return dis, nb, tot
+
+
+def run_case(ctx, rng, spec, stats, coq_jobs):
+    name, kind = spec[0], spec[1]
+    for_coq, budget, eh = spec[8], spec[9], spec[10]
+    prob = build_problem(rng, spec)
+    sol = solve(ctx, prob, name)
+    rc, M, _, err = run_harness(ctx, kind, sol, [])
+    if rc != 0 or not M["ok"]:
+        ctx.fail("post-processor failed to load a solution produced by the solver (rc=%d) [problem %s]" % (rc, name),
+                 problem=prob, stderr=err[-500:])
+        return
+    stats["meshes"].append((name, len(M["nodes"]), len(M["elems"])))
+    Q = gen_queries(rng, M, budget, eh)
+    rc, M, R, err = run_harness(ctx, kind, sol, [("q", q["x"], q["y"]) for q in Q])
+    if rc != 0 or len(R) != len(Q):
+        ctx.fail("post-processor terminated abnormally (rc=%d) during the query sequence [problem %s]" % (rc, name),
+                 problem=prob, stderr=err[-500:], queries=[(float(q["x"]).hex(), float(q["y"]).hex()) for q in Q[:len(R) + 1][-50:]])
+        return
+    stats["queries"] += len(Q)
+    stats["found"] += sum(1 for r in R if r[0] >= 0)
+    for q in Q:
+        stats["distinct"].add((name, q["x"], q["y"]))
+
+    def rerun(seq):
+        rc2, M2, R2, _ = run_harness(ctx, kind, sol, [("q", q["x"], q["y"]) for q in seq])
+        if rc2 != 0 or len(R2) != len(seq):
+            return []
+        st = dict(cats={}, inside=0, outside=0, borderline=0, field_checked=0)
+        return oracle(ctx, prob, M2, seq, R2, st)
+
+    fails = oracle(ctx, prob, M, Q, R, stats)
+    if fails:
+        report(ctx, prob, name, kind, Q, fails, rerun)
+    if len(stats["samples"]) < 3:
+        stats["samples"].append(dict(problem=name, kind=kind, nodes=len(M["nodes"]), elements=len(M["elems"]),
+                                     first_queries=[(float(q["x"]).hex(), float(q["y"]).hex(), q["cat"], r[0]) for q, r in zip(Q[:8], R[:8])]))
+    if for_coq:
+        if len(M["elems"]) > 400:
+            stats["notes"].append("mesh %s has %d elements: skipped on the Coq side" % (name, len(M["elems"])))
+            return
+        # direct InTriangleTest calls, including out-of-range indices for the range-checked copies
+        tests = []
+        for q in Q[:60]:
+            idx = rng.randrange(len(M["elems"]))
+            if rng.random() < 0.15:
+                idx = rng.choice([-1, -7] + ([len(M["elems"]), len(M["elems"]) + 5] if kind != "h" else []))
+            tests.append((q["x"], q["y"], idx))
+        rc, _, Rt, _ = run_harness(ctx, kind, sol, [("t",) + t for t in tests])
+        coq_jobs.append((name, prob, M, Q, R, tests, Rt))
+
+
+def correspond(ctx):
+    rng = ctx.rng
+    stats = dict(meshes=[], queries=0, found=0, distinct=set(), cats={}, inside=0, outside=0, borderline=0,
+                 field_checked=0, samples=[], notes=[])
+    coq_jobs = []
+    dis = []
+    if ctx.replay:
+        return replay_case(ctx)
+    for spec in problem_plan(ctx, rng):
+        run_case(ctx, vlib.Rng(ctx.seed * 1000 + sum(map(ord, spec[0]))), spec, stats, coq_jobs)
+    # model side: one coqc per mesh
+    nb = tot = 0
+    for (name, prob, M, Q, R, tests, Rt) in coq_jobs:
+        hdr = HEADER + coq_mesh_def("M0", M)
+        out = vlib.coq_eval(hdr, model_exprs("M0", M, [(q["x"], q["y"]) for q in Q], tests), name="c12_" + name, timeout=1500)
+        d, b, t = compare_model(M, Q, R, tests, Rt, out)
+        nb += b
+        tot += t
+        for msg in d[:3]:
+            dis.append(dict(what="Locate correspondence [%s]: %s" % (name, msg), problem=prob, kind=M["kind"],
+                            queries=[(float(q["x"]).hex(), float(q["y"]).hex()) for q in Q]))
+    cov = ctx.res.cov
+    cov["evaluations"] = stats["queries"]
+    cov["distinct_nontrivial"] = len(stats["distinct"])
+    cov["rule"] = ("problems generated from 4 base geometries (two-material rectangle, L, U with inclusion, split quadrilateral) "
+                   "under seeded affine maps, meshed by the snapshot's fmesher and solved by esolver/hsolver/fsolver, loaded by the "
+                   "real ElectrostaticsPostProcessor/HPProc/FPProc; per mesh a shuffled seeded query sequence (interior, centroid, "
+                   "exactly at nodes, convex combinations of two node coordinates on shared and boundary edges, +-k ulp around "
+                   "nodes, just inside/outside the outer boundary, bounding box incl. notches, far outside; 25% of the points "
+                   "repeated after a different history).  evaluations = point queries run through the implementation; "
+                   "non-trivial distinct = distinct (mesh, x, y)")
+    cov["samples"] = stats["samples"]
+    cov["input_distribution"] = dict(meshes=stats["meshes"], categories=stats["cats"], found=stats["found"],
+                                     exactly_inside=stats["inside"], clearly_outside=stats["outside"],
+                                     borderline=stats["borderline"], field_checked=stats["field_checked"])
+    cov["model_meshes"] = [j[0] for j in coq_jobs]
+    cov["values_compared"] = tot
+    cov["bit_identical"] = nb
+    ctx.res.notes += stats["notes"]
+    return dis
+
+
+def replay_case(ctx):
+    rp = ctx.replay.get("replay", ctx.replay)
+    prob = rp["problem"]
+    prob["pts"] = [tuple(p) for p in prob["pts"]]
+    prob["regions"] = [([tuple(q) for q in poly], b) for poly, b in prob["regions"]]
+    prob["labels"] = [(tuple(q), b) for q, b in prob["labels"]]
+    kind = rp.get("kind", prob["kind"])
+    sol = solve(ctx, prob, "replay")
+    Q = [dict(x=float.fromhex(q[0]), y=float.fromhex(q[1]), cat=(q[2] if len(q) > 2 else "bbox")) for q in rp["queries"]]
+    for q in Q:
+        if q["cat"] in ("vertex", "edge"):
+            q["cat"] = "bbox"
+    rc, M, R, err = run_harness(ctx, kind, sol, [("q", q["x"], q["y"]) for q in Q])
+    st = dict(cats={}, inside=0, outside=0, borderline=0, field_checked=0)
+    fails = oracle(ctx, prob, M, Q, R, st)
+    for msg, qi, tag in fails[:3]:
+        ctx.fail(msg + " [replay]", finding=tag or "", problem=prob, kind=kind, queries=rp["queries"])
+    ctx.res.cov.update(evaluations=len(Q), distinct_nontrivial=len(set((q["x"], q["y"]) for q in Q)),
+                       rule="replay of a recorded query sequence", samples=[rp["queries"][:5]])
+    return []
+
+
+def search(ctx, broken):
+    """A proof or the correspondence broke: look harder for an input on which the PROPERTY
+    fails against the real code (oracle only, more meshes and many more queries)."""
+    found = []
+    rng = vlib.Rng(ctx.seed + 17)
+    stats = dict(meshes=[], queries=0, found=0, distinct=set(), cats={}, inside=0, outside=0, borderline=0,
+                 field_checked=0, samples=[], notes=[])
+    before = len(ctx.failing_inputs)
+    plan = []
+    for k in range(9):
+        kind = "ehm"[k % 3]
+        plan.append(("s%d_%s" % (k, kind), kind, rng.choice(list(shapes().keys())), rng.choice([0.15, 0.3, 0.6, 0.9]), True,
+                     rng.choice(list(UNITS.keys())), False, k % 2 == 0, False, 8000, k % 3 == 0))
+    for spec in plan:
+        run_case(ctx, vlib.Rng(ctx.seed * 77 + sum(map(ord, spec[0]))), spec, stats, [])
+        if len(ctx.failing_inputs) > before:
+            break
+    new = ctx.failing_inputs[before:]
+    del ctx.failing_inputs[before:]
+    return new
